@@ -263,6 +263,10 @@ func (r *Run) Finish(cov Coverage) int {
 		path := filepath.Join(dir, name+".json")
 		data, _ := json.MarshalIndent(v, "", " ")
 		os.WriteFile(path, data, 0o644)
+		if lf, err := os.OpenFile(filepath.Join(Root, ".work", "violations.log"), os.O_APPEND|os.O_CREATE|os.O_WRONLY, 0o644); err == nil {
+			fmt.Fprintf(lf, "%s %s %s fp=%s expected=%s observed=%s\n", time.Now().Format(time.RFC3339), r.ID, r.Tier, fp, v.Expected, firstLines(v.Observed, 3))
+			lf.Close()
+		}
 		fmt.Printf("VIOLATION property=%s replay=%s\n", r.ID, path)
 		fmt.Printf("  fingerprint: %s\n  expected: %s\n  observed: %s\n  cases: %d\n", fp, v.Expected, firstLines(v.Observed, 6), v.Count)
 	}
